@@ -1,5 +1,6 @@
 import Blue.Model.Kvs
 import Blue.Model.NextCompaction
+import Blue.Model.ApplyCompactionB
 import Blue.Proofs.SpecBounds
 import Blue.Driver.Util
 /-! Driver verbs for the store model (instance `kvs`): point reads, invariants I1 ∧ I2 and
@@ -15,7 +16,14 @@ import Blue.Driver.Util
     in the order of `CompactionCore::inputs`, and the decidable tree invariant `invB` — the hypothesis
     of `nextCompaction_closed` — on the tree of the request) or `none inv=…`; with `some` only
     `some` / `none`.
-    `f64tab` prints the two floating-point tables of the model, `scale <level> <score>` one value. -/
+    `f64tab` prints the two floating-point tables of the model, `scale <level> <score>` one value.
+
+    tree-step verbs (models `applyCompaction` / `applyTrivialMove` / `ingest`, the functions):
+    `apply|move <levels> <lower> <upper> <first> <last> <id,id,…|-> :: L<i>:<id>:<first>:<last>:<sts>:<bts>:<ents> … ::
+      L<upper>:… …` (the tree before in the order the version holds the files, then the outputs; `move`
+    takes exactly one output) and `ingest <levels> :: <tree before> :: L0:<the new file>` answer the
+    successor tree `L0=<id,id,…|-> L1=… …`; `apply`/`move` append `chosen=1|0:<failing conjuncts>` and
+    `outsok=1|0:<failing conjuncts>`: the Boolean forms of `Chosen t c` and `OutsOk t c outs`. -/
 namespace Blue.Driver.C01
 open Blue.Driver Blue.Kvs Blue.Spec
 
@@ -267,8 +275,67 @@ def handleSelect (toks : List String) : String :=
     | _, _, _, _, _, _, _, _ => "bad-op"
   | _ => "bad-op"
 
+/-! ### the tree steps as functions -/
+
+def renderTree (ids : List String) (t : Blue.NextCompaction.Tree) : String :=
+  " ".intercalate ((List.range t.length).map fun i =>
+    let l := t.getD i []
+    "L" ++ toString i ++ "=" ++ (if l.isEmpty then "-" else ",".intercalate (l.map fun f => ids.getD f.id "?")))
+
+def renderFlags (name : String) (fl : List (String × Bool)) : String :=
+  if fl.all (·.2) then name ++ "=1"
+  else name ++ "=0:" ++ ",".intercalate ((fl.filter (fun x => !x.2)).map (·.1))
+
+def stepKeys (files outs : List RawFile) (extra : List (List Nat)) : List (List Nat) :=
+  ((files ++ outs).flatMap (fun f => f.first :: f.last :: f.ents.map (·.key)) ++ extra).foldl (fun acc k => insertKey k acc) []
+
+def toNF (keys : List (List Nat)) (ids : List String) (f : RawFile) : Blue.NextCompaction.File :=
+  ⟨idIndex ids f.id, rank keys f.first, rank keys f.last, 0, f.bts, vers keys f.ents⟩
+
+def toTree (keys : List (List Nat)) (ids : List String) (nlev : Nat) (files : List RawFile) : Blue.NextCompaction.Tree :=
+  (List.range nlev).map fun i => (files.filter (·.level == i)).map (toNF keys ids)
+
+def handleApply (move : Bool) (toks : List String) : String :=
+  match toks with
+  | nlev :: lower :: upper :: first :: last :: ins :: "::" :: rest =>
+    let (fs, os) := splitAtSep rest
+    match nlev.toNat?, lower.toNat?, upper.toNat?, parseHex first, parseHex last, allSome (fs.map parseFile), allSome (os.map parseFile) with
+    | some nl, some lo, some up, some fk, some lk, some files, some outs =>
+      if files.any (fun f => f.level ≥ nl) || outs.any (fun f => f.level ≠ up) then "bad-op" else
+      let keys := stepKeys files outs [fk, lk]
+      let inputs := if ins = "-" then [] else ins.splitOn ","
+      let ids := files.map (·.id) ++ outs.map (·.id) ++ inputs
+      let t := toTree keys ids nl files
+      let c : Blue.NextCompaction.Core := ⟨lo, up, rank keys fk, rank keys lk, inputs.map (idIndex ids), 0⟩
+      let mouts := outs.map (toNF keys ids)
+      let flags := " " ++ renderFlags "chosen" (Blue.NextCompaction.chosenFlags t c)
+        ++ " " ++ renderFlags "outsok" (Blue.NextCompaction.outsOkFlags t c mouts)
+      if move then
+        match mouts with
+        | [f] => renderTree ids (Blue.NextCompaction.applyTrivialMove t c f) ++ flags
+        | _ => "bad-op"
+      else renderTree ids (Blue.NextCompaction.applyCompaction t c mouts) ++ flags
+    | _, _, _, _, _, _, _ => "bad-op"
+  | _ => "bad-op"
+
+def handleIngest (toks : List String) : String :=
+  match toks with
+  | nlev :: "::" :: rest =>
+    let (fs, os) := splitAtSep rest
+    match nlev.toNat?, allSome (fs.map parseFile), allSome (os.map parseFile) with
+    | some nl, some files, some [f] =>
+      if files.any (fun f => f.level ≥ nl) || f.level ≠ 0 then "bad-op" else
+      let keys := stepKeys files [f] []
+      let ids := files.map (·.id) ++ [f.id]
+      renderTree ids (Blue.NextCompaction.ingest (toTree keys ids nl files) (toNF keys ids f)) ++ " chosen=1 outsok=1"
+    | _, _, _ => "bad-op"
+  | _ => "bad-op"
+
 def handle (toks : List String) : String :=
   match toks with
+  | "apply" :: rest => handleApply false rest
+  | "move" :: rest => handleApply true rest
+  | "ingest" :: rest => handleIngest rest
   | "select" :: _ | "f64tab" :: _ | "scale" :: _ => handleSelect toks
   | "load" :: rest =>
     let (st, qs) := splitAtSep rest
